@@ -179,14 +179,33 @@ def scan (o : Ops σ) (first : Nat) : (k i : Nat) → Option Candidate → M σ 
     scan o first k (i + 1) cur'
 
 /-- `ManifestTable::entries` up to the iterator: entry count, address of the first entry, and
-the check that the whole table is addressable. -/
+the check that the whole table (8 byte count + 64 byte entries) lies within the 64 bit address
+space (computed in `u128`; it guarantees that no entry address overflows). -/
 def entries (o : Ops σ) (table : Nat) : M σ (Nat × Nat) := do
   let n ← readReg o table 0 8
-  let first ← M.lift (regAddr table 8)
-  if n * 64 < 2 ^ 64 ∧ first + n * 64 < 2 ^ 64 then pure (n, first) else M.fail .invalidDevice
+  if table + 8 + n * 64 ≤ 2 ^ 64 then pure (n, table + 8) else M.fail .invalidDevice
 
-/-- whole-file read: `vec![0; file_size]`, `self.read(file_address, &mut buf)` -/
-def readFile (o : Ops σ) (addr size : Nat) : M σ Bytes := devRead o addr size
+/-- `XML_READ_STEP` -/
+def XML_READ_STEP : Nat := 1024 * 1024
+
+/-- The `while buf.len() < file_size` loop of `genapi`: the buffer grows by at most
+`XML_READ_STEP` bytes per iteration and each step is one `DeviceControl::read` into the new
+tail; the address of a step that leaves the 64 bit address space is `InvalidDevice`.  Nothing is
+allocated from the advertised size.  `fuel` bounds the iterations (`size / XML_READ_STEP + 1`
+suffice); `offset` = `buf.len()`. -/
+def readFileLoop (o : Ops σ) (addr size : Nat) : (fuel offset : Nat) → Bytes → M σ Bytes
+  | 0, _, buf => pure buf
+  | fuel + 1, offset, buf =>
+    if offset < size then do
+      let step := min XML_READ_STEP (size - offset)
+      let a ← M.lift (if addr + offset < 2 ^ 64 then .ok (addr + offset) else .err .invalidDevice)
+      let bs ← devRead o a step
+      readFileLoop o addr size fuel (offset + step) (buf ++ bs)
+    else pure buf
+
+/-- whole-file read of `genapi` -/
+def readFile (o : Ops σ) (addr size : Nat) : M σ Bytes :=
+  readFileLoop o addr size (size / XML_READ_STEP + 1) 0 []
 
 /-- `ManifestEntry::sha1_hash`: 20 raw bytes, all zero = not available -/
 def sha1Hash (o : Ops σ) (ent : Nat) : M σ (Option Bytes) := do
